@@ -20,6 +20,8 @@ def visible(spec, t0):
             at = t
         elif kind == "cold":
             at = t0 + t
+        elif kind == "syncthen":
+            at = t0 if not out else t0 + t  # the first event inside subscribe(), the rest like a cold source
         else:
             at = t0
         out.append((at, k, v))
